@@ -11,7 +11,9 @@ static CC_Queue *Q[NSLOT];
 static CC_QueueIter it;   static int it_slot = -1;
 static QueueZipIter zit;  static int zit_a = -1, zit_b = -1;
 
-static void shim_reset(void) { for (int i = 0; i < NSLOT; i++) Q[i] = NULL; it_slot = zit_a = zit_b = -1; }
+static int sparse;           /* obs=sparse on a constructor line: no content sweep except in `observe` */
+static bool sweep_now;
+static void shim_reset(void) { sparse = 0; for (int i = 0; i < NSLOT; i++) Q[i] = NULL; it_slot = zit_a = zit_b = -1; }
 
 /* obs through the queue's public API only: a fresh queue iterator (front of the inner deque first,
  * i.e. newest element first), cc_queue_size, cc_queue_peek */
@@ -36,9 +38,9 @@ static void phys_all(void) {
     if (!any) { o("-"); return; }
     memmove(obuf + start, obuf + start + 1, olen - start); olen--;
     for (int k = 0; k < NSLOT; k++) if (Q[k]) {
-        walk_deque(Q[k]->d);
+        walk_deque(Q[k]->d); if (sweep_now) walk_deque_api(Q[k]->d);
         if (block_size(Q[k]) < sizeof(CC_Queue)) o(" WALK=queue-header-block");
-        if (cc_queue_struct_size() != sizeof(CC_Deque)) o(" WALK=struct-size-api");
+        if (sweep_now && cc_queue_struct_size() != sizeof(CC_Deque)) o(" WALK=struct-size-api");
     }
 }
 static void o_out(enum cc_stat st, void *out) { o_stat(st); if (st == CC_OK) o(" out=%llu", VAL(out)); }
@@ -50,7 +52,10 @@ static void do_op(Cmd *c) {
     void *out = PTR(777777);
     enum cc_stat st;
     if (k < 0 || k >= NSLOT) { o("st=- badslot"); o_sep(); o("-"); return; }
-    if (is_op(c, "new")) {
+    sweep_now = !sparse;
+    if (is_op(c, "observe")) { sweep_now = true; o("st=-");
+    } else if (is_op(c, "new")) {
+        if (!strcmp(kv_str(c, "obs", ""), "sparse")) { sparse = 1; sweep_now = false; }
         if (Q[k]) { o("st=- busy"); o_sep(); o("-"); return; }
         CC_QueueConf conf; cc_queue_conf_init(&conf);
         conf.capacity = kv_u64(c, "cap", conf.capacity);
@@ -60,6 +65,7 @@ static void do_op(Cmd *c) {
         Q[k] = st == CC_OK ? q : NULL;
         o_stat(st);
     } else if (is_op(c, "new_default")) {
+        if (!strcmp(kv_str(c, "obs", ""), "sparse")) { sparse = 1; sweep_now = false; }
         if (Q[k]) { o("st=- busy"); o_sep(); o("-"); return; }
         CC_Queue *q = NULL; st = cc_queue_new(&q); Q[k] = st == CC_OK ? q : NULL; o_stat(st);
     } else if (is_op(c, "destroy")) {
@@ -97,5 +103,6 @@ static void do_op(Cmd *c) {
     } else if (is_op(c, "size")) { o("st=- out=%zu", cc_queue_size(Q[k]));
     } else if (is_op(c, "foreach")) { cc_queue_foreach(Q[k], cb_rec); o("st=- "); o_cb();
     } else { o("st=- badop"); }
-    obs_all(); o_sep(); phys_all();
+    if (sweep_now) obs_all();
+    o_sep(); phys_all();
 }
